@@ -1151,6 +1151,13 @@ class GrammarBuilder:
         if name.startswith('__'):
             self._grammar_error(is_term, 'Names starting with double-underscore are reserved (Error at {name})', name)
 
+        if override and is_term and exp is not None and self._definitions[name].tree is not None:
+            # Terminals that were loaded earlier (e.g. in an imported grammar) may already refer to this
+            # terminal's tree, so replace its content in place, like %extend does
+            old_tree = self._definitions[name].tree
+            old_tree.children[:] = exp.children
+            exp = old_tree
+
         self._definitions[name] = Definition(is_term, exp, params, self._check_options(is_term, options))
 
     def _extend(self, name, is_term, exp, params=(), options=None):
